@@ -10,12 +10,30 @@ CHECKS = {
  "C02": ("exploration", "bounded-exhaustive enumeration of written archives validated by an independent spec-derived reader, plus parameter sweeps across the 16 KiB root window",
          "Every archive of the C01 corpus and 760 whole-archive sweeps with n in [n*-40,n*+80] around the root-size crossing (8 family x codec combinations) is parsed by the harness's own v3 reader: sections in file and disjoint, header+root <= 16384, directories decode under the declared codec, ordering, tile ranges, counters recomputed, clustered flag, JSON object, spec lookup procedure for every id and its neighbours.",
          "trusts harness/src/spec/archive.rs and the upstream codec crates as decoders", "4/C02"),
+ "C03": ("exploration", "bounded-exhaustive product enumeration of foreign archives emitted by an independent spec-level encoder, opened by the real readers and compared with the encoder's own id->(offset,length) table; real-world fixtures compared tile by tile with the spec reader",
+         "Full product of section order (6 permutations, root behind a gap) x gap x tree shape (root only, root->leaves, depth 3, mixed) x run length x offset pattern (contiguous, back-references, descending, overlapping) x entry count x metadata kind x 4 compressions (32k archives quick) through from_bytes, from_reader, from_async_reader, util::read_directories(_async) and Directory::find_entry_for_tile_id on every directory; the three upstream fixtures (1.4M tiles) against the spec reader.",
+         "trusts the harness's encoder (spec/archive.rs); the fixtures tie encoder and reader to upstream output", "4/C03"),
  "C04": ("model_checking", "explicit-state breadth-first search to fix-point over edit histories of the real PMTiles object (states merged on a canonical key read through the verif hook), BTreeMap reference model checked in every state",
          "All histories over add/remove/save+reopen(sync|async) on adjacent ids with colliding contents from 10 (quick) / 14 (thorough) initial states incl. three foreign archives: the reachable state space is finite and explored completely (8.4k states / 92k transitions quick; ~330k states thorough); every transition is executed on the real object twice (with and without interleaved lookups) and lookups by id and by coordinates, listing and count are compared with the map in every state.",
          "state merging argument in DESIGN.md 4/C04; hook is read-only", "4/C04"),
  "C10": ("model_checking", "bounded-exhaustive archive enumeration in three tile provenances judged by the independent reader, plus an invariant on the hook snapshot in every state of the explicit-state history search",
          "Archive clauses on every small map x 4 codecs x {memory, reader-backed, mixed} x {sync,async} (58k archives quick) and on foreign archives storing a content twice: data length = sum of distinct contents, equal content <=> equal offset, no mergeable neighbours, entry count = number of maximal runs. Retention clause (exactly one stored copy per referenced content, exact reference sets, no orphan) as an invariant in every state of the C04 BFS.",
          "64-bit content hashes assumed collision-free on the alphabets", "4/C10"),
+ "C11": ("exploration", "exhaustive enumeration of all bound pairs over structure-derived endpoint sets on library-written and foreign archives, against the full content filtered by RangeBounds::contains",
+         "For 9 archives (with and without leaf directories, runs straddling leaf boundaries, a leaf pointer below its leaf's first id) every pair (Included|Excluded|Unbounded)(v) x (Included|Excluded|Unbounded)(v) over v in {0,1,u64::MAX-1,u64::MAX, leaf first ids +-1, run starts/ends +-1, max id +-1} - 14.5k ranges incl. empty and inverted - through the three partial openers and both directory utilities; ids, bytes and absent ids compared; failure or panic is a violation.",
+         "full content taken from the independent spec reader; overflow checks on", "4/C11"),
+ "C13": ("model_checking", "stateless deviation-bounded exploration (CHESS-style iterative bounding) of every stream call's answer (short transfer sizes, Pending) on the real sync and async code paths; all compositions for tiny objects; uniform schedules",
+         "152 scenarios (header/directory/archive read+write, lookups, backing-reader re-write, directory utilities, codec adapters; 4 codecs; sync+async; leaf-spill writers): all executions with <= 3 (quick) / 4 (thorough) deviations where the count fits the budget (>= 1 for the 7.7k-call spill writers), every transfer size at every call for directories of <= 17/21 bytes, and uniform max-c-bytes / always-Pending schedules; result, stream image and final position must equal the unfragmented run. Replay divergence is a machinery error (exit 2).",
+         "controlled stream semantics in DESIGN.md section 8; stays writable after poll_close", "4/C13"),
+ "C15": ("fault_enumeration", "exhaustive fail-stop fault enumeration: for each scenario's fault-free log of N stream calls, every k<N is executed with call k and all later calls failing",
+         "Every fault point of 152 single-call scenarios (open, open+one lookup, archive/directory/header write, re-write over a failing backing reader, read_/write_directories; 4 codecs; sync+async; leaf-spill writers) - ~10k faulty executions: the call must return Err, or Ok only with the complete image/value; never panic.",
+         "fail-stop faults only", "4/C15"),
+ "C17": ("fault_enumeration", "exhaustive crash-point enumeration over the recorded write/seek log of archive writes; every prefix image is handed to both readers",
+         "36 write histories (0/1/3/60 tiles x 4 codecs, leaf-spill archives; sync+async writer): for every k in [0,N] (8.3k crash points) the image after k operations must be rejected unless byte-identical to the complete archive, in which case it must read back as the logical archive.",
+         "each write atomic and in program order", "4/C17"),
+ "C18": ("exploration", "exhaustive product of start positions x pre-fill modes x archives x writers against the archive written at position 0",
+         "P in {0,1,10,126,127,128,4096,16384,70000} x {empty, pattern of P bytes, pattern of P+100000 bytes} x {0 tiles, 3 tiles, leaf spill} x codecs x {sync,async}: prefix untouched, [P,P+L) byte-identical to the P=0 archive, final position P+L, image[P..] opens to the logical archive.",
+         "in-memory seekable stream", "4/C18"),
  "C19": ("model_checking", "rejected-operation invariant checked in every state of the explicit-state history search; exhaustive position enumeration for the directory/metadata/compression clauses",
          "add_tile(id, empty) in three argument forms for every id in every reachable state of the C04 BFS (2.2M refused adds quick): Err and snapshot + observations unchanged; zero-length entry at every index of directories of size 1..4 (+1000-entry lists) x 4 codecs x sync/async for parser and serialiser, archives carrying one in root or leaf; every non-object JSON kind as metadata; Unknown compression through writer, opener, directory codec and the six helpers.",
          "spec encoder produces the offending directories", "4/C19"),
